@@ -417,10 +417,27 @@ def main(argv):
             r = "%s/build/%s/run" % (VERIF, mod.CLUSTER.lower())
             runner = r if os.path.exists(r) else None
         bad_words = forbidden_scan(mod)
+    coqchk = None
+    if built and args.tier == "thorough" and not args.no_build:
+        # independent re-check of the compiled property file and everything it depends on
+        modpath = "MafVerif." + mod.PROPS.replace(".v", "").replace("/", ".")
+        with Lock():
+            rc, out, dt = sh("timeout 2400 coqchk -silent -o -Q %s MafVerif %s" % (COQ, modpath), 2500, cwd=COQ)
+        m = re.search(r"\* Axioms:(.*?)\n\s*\n\* Constants/Inductives relying on type-in-type:(.*?)\n\s*\n\* Constants/Inductives relying on unsafe \(co\)fixpoints:(.*?)\n\s*\n\* Inductives whose positivity is assumed:(.*?)\n", out + "\n\n", flags=re.S)
+        if rc == 124:
+            coqchk = {"status": "timed out (not counted as an obligation)", "s": round(dt, 1)}
+        elif rc != 0 or not m:
+            coqchk = {"status": "failed", "rc": rc, "tail": out[-600:], "s": round(dt, 1)}
+        else:
+            parts = [" ".join(x.split()) for x in m.groups()]
+            coqchk = {"status": "ok" if all(p == "<none>" for p in parts) else "reports assumptions",
+                      "axioms": parts[0], "type_in_type": parts[1], "unsafe_fixpoints": parts[2], "assumed_positivity": parts[3], "s": round(dt, 1)}
     extra = []
+    if coqchk is not None and coqchk["status"] != "timed out (not counted as an obligation)":
+        extra.append(("coqchk -o (independent checker: no axioms, no unsafe switches)", coqchk["status"] == "ok", json.dumps(coqchk)[:400]))
     if hasattr(mod, "EXTRA_OBLIGATIONS"):
         try:
-            extra = list(mod.EXTRA_OBLIGATIONS({"built": built}))
+            extra = extra + list(mod.EXTRA_OBLIGATIONS({"built": built}))
         except Exception as e:
             extra = [("extra-obligations", False, repr(e))]
 
@@ -554,7 +571,7 @@ def main(argv):
             "correspondence": {"cases": len(results), "corpus_cases": len(corpus), "agree": sum(1 for r in results if r["agree"]),
                                "disagree": len(disagreements), "errors": len(harness_errors)},
             "oracle_violations_on_impl": len(violating), "distribution": dist,
-            "build": bdetail, "widened_search_cases": widened,
+            "build": bdetail, "widened_search_cases": widened, "coqchk": coqchk,
         },
         "assumptions": list(getattr(mod, "ASSUMPTIONS", [])),
         "wall_s": round(time.time() - t0, 2),
